@@ -456,6 +456,18 @@ class Analyzer:
                 nn = lambda t: any(t in x.aliases and not x.maybe_null for x in live)
                 if (lt in nulls and nn(rt)) or (rt in nulls and nn(lt)):
                     known = True
+                # a block handed out by an allocator (or NULL) is never the address of a local object:
+                # `if (tmp != stack_buf) free(tmp);` releases exactly the heap arm
+                def stackobj(n):
+                    if n is None:
+                        return False
+                    if n.k == "UnaryOperator" and n.op == "&" and n.c and n.c[0] is not None:
+                        n = n.c[0].strip()
+                        return n is not None and n.k == "DeclRefExpr" and n.get("dk") == "local"
+                    return n.k == "DeclRefExpr" and n.get("dk") == "local" and "[" in (n.t or "")
+                held = lambda t: any(t in x.aliases for x in live) or t in nulls
+                if not same and ((stackobj(r) and held(lt)) or (stackobj(l) and held(rt))):
+                    known = True
                 if same:
                     eq = True
                 elif known:
